@@ -581,7 +581,7 @@ func corpusSub(r *core.Run, name string, cfg core.Cfg, keep func([]byte) bool, f
 	docsSub(r, name, fmt.Sprintf("%d documents of %s under %s", len(docs), corpusRule, cfg), cfg, docs, fn)
 }
 
-const corpusRule = "the structured corpus (nesting documents, colliding heading sequences, footnote sequences, attribute blocks, replication families, leak-prone documents, printed model documents with tab/space indentation in every single-deviation spelling, small tables with every pair of cell contents, code lines under containers in every tab/space mixture, indexed families of n footnotes / reference links / table columns and rows / attributes / inline items for every n up to a bound, delimiters next to non-ASCII whitespace and punctuation, every ATX/Setext heading shape with closers and attribute blocks, every block construct in every container and extension slot, CR LF versions of the model, table and code documents)"
+const corpusRule = "the structured corpus (every byte value 0..255 alone and between letters in every sink template, inline atoms on a first / inner / last line and around hard breaks in every sink template, nesting documents, colliding heading sequences, footnote sequences, attribute blocks, replication families, leak-prone documents, printed model documents with tab/space indentation in every single-deviation spelling, small tables with every pair of cell contents, code lines under containers in every tab/space mixture, indexed families of n footnotes / reference links / table columns and rows / attributes / inline items for every n up to a bound, delimiters next to non-ASCII whitespace and punctuation, every ATX/Setext heading shape with closers and attribute blocks, every block construct in every container and extension slot, CR LF versions of the model, table and code documents)"
 
 // CountDocs returns indexed families whose size parameter n takes EVERY value 1..maxN: n footnotes (references then
 // definitions, and the other way round; every second one referenced twice), n reference links with n definitions, tables of
@@ -861,4 +861,33 @@ func attrNameNeighbours(allowed []string, thorough bool) []string {
 	}
 	sort.Strings(out)
 	return out
+}
+
+// SinkByteDocs returns every sink template of the safe-markup check with its payload position holding every byte value
+// 0..255, alone and between two letters.
+func SinkByteDocs() [][]byte {
+	var docs [][]byte
+	for _, ctx := range sinkContexts {
+		for b := 0; b < 256; b++ {
+			c := string([]byte{byte(b)})
+			docs = append(docs, []byte(strings.ReplaceAll(ctx.tmpl, "§", c)), []byte(strings.ReplaceAll(ctx.tmpl, "§", "a"+c+"b")))
+		}
+	}
+	return docs
+}
+
+// SinkLineShapeDocs returns every sink template with its payload position holding an inline atom placed on the first,
+// the last or an inner line of a multi-line payload, and directly before / behind a hard line break of either spelling.
+func SinkLineShapeDocs() [][]byte {
+	atoms := []string{"a", "*e*", "`c`", "[l](u)", "<b>", "&amp;", "![i](s)", "<http://h/>", "\\*"}
+	shapes := []string{"x\n§", "§\nx", "x\n§\ny", "x  \n§", "§\\\nx", "§\n§"}
+	var docs [][]byte
+	for _, ctx := range sinkContexts {
+		for _, a := range atoms {
+			for _, sh := range shapes {
+				docs = append(docs, []byte(strings.ReplaceAll(ctx.tmpl, "§", strings.ReplaceAll(sh, "§", a))))
+			}
+		}
+	}
+	return docs
 }
